@@ -145,7 +145,7 @@ impl Clone for ProgramDetails { #[verifier::external_body] fn clone(&self) -> (r
 '''
 
 FCWB = A(ret='r',
-         requires=[('resolver_total', 'forall|v: Vec<CelValue>| call_requires(resolve, (v,))')],
+         requires=[('resolver_accepts_one_value_per_child', 'forall|v: Vec<CelValue>| v@.len() == children@.len() ==> call_requires(resolve, (v,))')],
          ensures=[('identifiers_of_every_child', 'r.details@ == all_details(children@, children@.len() as int)', ('C17',)),
                   ('folded_only_when_every_child_is_constant_and_only_with_the_resolver', '''if all_consts(children@, children@.len() as int) {
                         exists|vals: Vec<CelValue>, res: CelValue| call_ensures(resolve, (vals,), res) && node_view(r.inner) == SNode::Const(res) && vals@.len() == children@.len()
